@@ -86,7 +86,7 @@ def render(rnd, t, stop=''):
         return ''.join(parts)
     if k == 'var':
         _, name, op, sub = t
-        if op is None: return '${' + name + '}'
+        if op is None: return ('"${' + name + '}"') if rnd.random() < .3 else ('${' + name + '}')      # substitution also happens inside double quotes
         return '${' + name + op + render(rnd, sub, '}') + '}'
     if k == 'fun':
         _, f, args = t
